@@ -60,6 +60,7 @@ def c06(ctx: Ctx) -> None:
     RA.rule_rename(ctx, RA.GENERIC)
     RS.rule_copy(ctx)
     RA.rule_tl_operators(ctx)
+    RA.rule_contract_factories(ctx)
 
 
 def c15(ctx: Ctx) -> None:
@@ -69,6 +70,7 @@ def c15(ctx: Ctx) -> None:
 
 def c16(ctx: Ctx) -> None:
     RK.rule_term_kernels(ctx, ["rename", "remove", "copy"])
+    RP.rule_rename_variables_chain(ctx)
     RA.rule_rename(ctx, RA.GENERIC)
     RA.rule_rename(ctx, RA.POLY)
 
@@ -87,6 +89,7 @@ def c04(ctx: Ctx) -> None:
     RP.rule_polarity(ctx, P + "_get_tlp_context", "refine", True, "none")
     RP.rule_tactic4_sign(ctx)
     RP.rule_kaykobad_guards(ctx)
+    RE.rule_optional_results(ctx)
     RK.rule_term_kernels(ctx, ["multiply", "add", "remove", "substitute", "isolate", "copy"])
     RP.rule_lp_bounds(ctx)
 
@@ -107,6 +110,7 @@ def c11(ctx: Ctx) -> None:
     RP.rule_contains_behavior(ctx)
     RK.rule_term_kernels(ctx, ["evaluate", "substitute", "multiply", "add", "remove"])
     RP.rule_status_table(ctx, P + "is_polytope_empty")
+    RP.rule_is_empty_wiring(ctx)
     RP.rule_lp_bounds(ctx)
 
 
@@ -123,6 +127,7 @@ def c09(ctx: Ctx) -> None:
     RPA.rule_translation(ctx)
     RPA.rule_scaling_actions(ctx)
     RPA.rule_parse_entry(ctx)
+    RPA.rule_infix_chain(ctx)
     RF.rule_no_global_mutation(ctx)
 
 
@@ -132,6 +137,7 @@ def c10(ctx: Ctx) -> None:
     RSER.rule_file_tags(ctx)
     RSER.rule_number_format(ctx)
     RSER.rule_printer_shape(ctx)
+    RSER.rule_opposite_predicate(ctx)
     RE.rule_validator_covers(ctx)
 
 
@@ -149,6 +155,8 @@ def c14(ctx: Ctx) -> None:
     RE.rule_asserts(ctx)
     RE.rule_reader_validates(ctx)
     RE.rule_validator_covers(ctx)
+    RE.rule_validator_types(ctx)
+    RE.rule_optional_results(ctx)
     RP.rule_dispatcher(ctx)
     RP.rule_decline_discipline(ctx)
     for k in RP.STATUS_TABLES:
@@ -170,6 +178,7 @@ def c17(ctx: Ctx) -> None:
     RS.rule_compound_merge(ctx)
     RS.rule_eq(ctx)
     RP.rule_status_table(ctx, RP.PTL + "is_polytope_empty")
+    RP.rule_is_empty_wiring(ctx)
 
 
 def c03(ctx: Ctx) -> None:
